@@ -373,7 +373,7 @@ def edit_vs_rebuild_shard(args):
             # undo: re-assigning the previous value restores the previous footprints
             if op["op"] in ("setq", "sethourly", "setlink", "setlist") and rng.random() < 0.3:
                 kind = op.get("kind") or "patterns"
-                e = before_spec[kind][op["name"]]
+                e = before_spec["system"] if kind == "system" else before_spec[kind][op["name"]]
                 if op["op"] == "setq":
                     undo = dict(op, value=e[op["param"]])
                 elif op["op"] == "sethourly":
